@@ -92,6 +92,10 @@ def worker(kp, job):
         viol.append(('metacomments', f'get_metacomments() = {metas}, the !! lines are {pre + post}', {'text': text}))
     # ---- listings against each other, per filter
     filters = [None, []] + [[c] for c in rng.sample(CATS, 5)] + [rng.sample(CATS, rng.randint(2, 5)) for _ in range(2)] + [['CORE'], ['NOTE_REST']]
+    # large filters: everything but one category, everything but a few (an include list is the only way to say "all but")
+    filters += [[c for c in CATS if c != x] for x in rng.sample(CATS, 1)]
+    drop = set(rng.sample(CATS, rng.randint(2, 20)))
+    filters += [[c for c in CATS if c not in drop]]
     for f in filters:
         fa = None if f is None else [TC[c] for c in f]
         key = rng.choice([None, 'COM', 'O', 'ONB'])
@@ -212,7 +216,7 @@ def run(chk):
     full = chk.tier == 'thorough' or bool(b.drift) or not b.proof_ok or not b.modelrun_ok
     n = core.budget(chk, full, 70, 500)
     chk.rule = ('generated documents (1-4 spines, splits and joins, global comments before / inside / after the spines) x '
-                '11 category filters (none, the empty list, singles, random sets), plus long scores of 1200-1500 lines (queries on kernpy alone) x comment keys; non-trivial = distinct (text, filter, key)')
+                '13 category filters (none, the empty list, singles, random small sets, all-but-one, all-but-a-few), plus long scores of 1200-1500 lines (queries on kernpy alone) x comment keys; non-trivial = distinct (text, filter, key)')
     results = engine.pmap(worker, [(chk.seed, i) for i in range(n)] )
     results += engine.pmap(long_worker, [(chk.seed, i) for i in range(2 if not full else 6)], nproc=6)
     engine.settle(chk, results, model)
